@@ -117,7 +117,7 @@ def cases(rng, tier, X):
         ops += [tk, 'clock 6500', tk, 'clock 70000', tk]
         out.append(('startup_m%d' % k, ops))
     # universal traffic (1..3 interfaces, every frame type / sender / path) with faults injected at random points
-    for k in range(60 if tier == 'quick' else 6000):
+    for k in range(150 if tier == 'quick' else 6000):
         ops = F.with_faults(rng, F.universal(rng), getter_mask=0x1ff, mtu0=True)
         out.append(('uf%d' % k, ops))
     out.append(('ctor_all', ['fault mallocall', 'fsm new 0 map', 'fsm new 1 sess', 'fsm new 2 enum', 'tbl new 0', 'espinit', 'fault clear', 'fsm new 0 map', 'tick 0 - - none']))
